@@ -10,7 +10,7 @@ REQUIRED = ["Sun.get_equinox_solstice", "Sun.equation_of_time", "Sun.apparent_ge
             "equatorial2horizontal", "ecliptical2equatorial", "true_obliquity", "nutation_longitude"]
 THEOREMS = ["C14_jde2000", "C14_eot_closed_form", "C14_eot_reduced", "C14_eot_bound", "C14_eot_seconds", "C14_eot_recompose",
             "C14_season_first_query", "C14_season_year_range", "C14_season_type",
-            "C14_season_exit_step", "C14_season_order", "C14_season_year_length", "C14_season_joint",
+            "C14_season_exit_step", "C14_season_loop_invariant", "C14_season_order", "C14_season_year_length", "C14_season_joint",
             "C14_sunrise_identity"]
 PROOF_TIMEOUT = {"quick": 1500, "thorough": 2400}
 EXHAUSTIVE = False
@@ -36,8 +36,8 @@ CLAUSES = {
         "proved [spec polynomials bridged by C14_season_first_query; interval: C14_season_order, C14_season_year_length, C14_season_joint]",
     "years outside -1000..3000 -> ValueError, float year -> TypeError": "proved [ideal: C14_season_year_range, C14_season_type]",
     "loop exit: when |corr| <= 2.5e-6 the body returns Epoch(epoch - corr)": "proved [ideal: C14_season_exit_step]",
-    "full loop invariant (|58 sin(k*90 - lambda(result))| <= 2.5e-6 on exit by induction on fuel)":
-        "unproved (searched): the iteration step goes through four Angle constructions; symbolic evaluation did not finish within the build budget",
+    "loop invariant by induction on the fuel: with the Sun position abstracted as lam(jde) on a step-closed set of instants, any result other than OutOfFuel is an Epoch t with |58 sin(k*90 - lam(t))| <= 2.5e-6":
+        "proved [ideal, pyrun per season/table + induction: C14_season_loop_invariant]",
     "apparent longitude at the returned instant = 0/90/180/270 within 1e-5 deg, not the antipode; termination": "unproved (searched): VSOP numerics",
     "sunrise equation: cos w0 = (sin h0 - sin phi sin delta)/(cos phi cos delta) puts the altitude formula at h0 at hour angle +-w0":
         "proved [spec, trig identity: C14_sunrise_identity] (bridging to the generated rise_set: unproved, searched)",
@@ -50,7 +50,8 @@ CLAUSES = {
 
 
 def proof_files(tier):
-    return ["C14_tac.v", "C14_angle.v", "C14_jde.v", "C14_eot.v", "C14_season.v", "C14_seasonB.v", "C14_season_all.v",
+    return ["C14_tac.v", "C14_angle.v", "C14_jde.v", "C14_eot.v", "C14_angle2.v", "C14_season.v",
+            "C14_sA0.v", "C14_sA1.v", "C14_sA2.v", "C14_sA3.v", "C14_sB0.v", "C14_sB1.v", "C14_sB2.v", "C14_sB3.v", "C14_season_all.v",
             "C14_poly.v", "C14_rise.v", "C14.v"]
 
 
@@ -373,6 +374,100 @@ def general(cx, rng, n):
                 cx.add("trts-rise-east-set-west", "%s: hour angles at rise/set are %.3f / %.3f deg" % (call, out[0][0], out[2][0]), p, "print(%s)" % call)
 
 
+def sun_radec(cx, jd_tt):
+    """apparent right ascension / declination (degrees) of the Sun from the library's own routines"""
+    e = cx.Epoch(jd_tt)
+    lon, la, r = cx.Sun.apparent_geocentric_position(e)
+    eps = cx.C.true_obliquity(e)
+    ra, dec = cx.C.ecliptical2equatorial(lon, la, eps)
+    return ra.to_positive()(), dec(), eps, cx.C.nutation_longitude(e)
+
+
+def sun_general(cx, rng, n):
+    """times_rise_transit_set fed with the library's own Sun around the March equinox (right ascension passing through
+    0h between the three daily positions): Sun at h0 +- 0.005 deg at the returned rise/set, on the meridian at transit."""
+    Angle, Epoch, C = cx.Angle, cx.Epoch, cx.C
+    places = [("Boston", 71.0833, 42.3333), ("Munich", -11.5667, 48.1333), ("Quito", 78.5, -0.2), ("Sydney", -151.2, -33.87)]
+    todo = [(2024, 3, 20, 0), (2024, 3, 21, 0), (1987, 3, 21, 1), (1987, 3, 22, 1), (2000, 3, 20, 0), (2000, 3, 21, 1)]
+    while len(todo) < n:
+        todo.append((rng.randint(1900, 2100), 3, rng.randint(18, 23), rng.randrange(len(places))))
+    h0 = -0.8333
+    for (y, mo, d, pi_) in todo:
+        name, lonw, lat = places[pi_]
+        cx.n += 1
+        j0 = Epoch(y, mo, d).jde()                       # 0h of the day (used as 0h TT for the positions, 0h UT for theta0)
+        pos = [sun_radec(cx, j0 + q) for q in (-1.0, 0.0, 1.0)]
+        dt = Epoch.tt2ut(y, mo)
+        eps, dpsi = pos[1][2], pos[1][3]
+        th0 = (Epoch(j0).apparent_sidereal_time(eps, dpsi) * 360.0) % 360.0
+        call = ("times_rise_transit_set(Angle(%r), Angle(%r), Angle(%r), Angle(%r), Angle(%r), Angle(%r), Angle(%r), Angle(%r), Angle(%r), %r, Angle(%r))"
+                % (lonw, lat, pos[0][0], pos[0][1], pos[1][0], pos[1][1], pos[2][0], pos[2][1], h0, dt, th0))
+        try:
+            res = C.times_rise_transit_set(Angle(lonw), Angle(lat), Angle(pos[0][0]), Angle(pos[0][1]), Angle(pos[1][0]), Angle(pos[1][1]),
+                                           Angle(pos[2][0]), Angle(pos[2][1]), Angle(h0), dt, Angle(th0))
+        except Exception as ex:
+            cx.add("trts-sun-raises", "%s (Sun, %s %d-%d-%d) raises %r" % (call, name, y, mo, d, ex), [y, mo, d, name], "print(%s)" % call); continue
+        if any(x is None for x in res):
+            cx.add("trts-sun-none", "%s (Sun, %s %d-%d-%d) = %r" % (call, name, y, mo, d, res), [y, mo, d, name], "print(%s)" % call); continue
+        cx.nontriv += 1
+        wrap = not (pos[0][0] < pos[1][0] < pos[2][0])
+        for idx, nm in ((0, "rising"), (1, "transit"), (2, "setting")):
+            m = res[idx] / 24.0
+            ra, dec, _, _ = sun_radec(cx, j0 + m + dt / 86400.0)
+            ha = wrap180(th0 + 360.985647 * m - lonw - ra)
+            azi, ele = C.equatorial2horizontal(Angle(ha), Angle(dec), Angle(lat))
+            if idx == 1:
+                if not abs(ha) <= 0.005:
+                    cx.add("trts-sun-transit-off-meridian", "%s (Sun, %s %d-%d-%d%s): at the returned transit %.5f h the Sun's hour angle is %.4f deg"
+                           % (call, name, y, mo, d, ", RA wraps through 0h" if wrap else "", res[1], ha), [y, mo, d, name], "print(%s)" % call)
+            elif not abs(ele() - h0) <= 0.005:
+                cx.add("trts-sun-%s-altitude" % nm, "%s (Sun, %s %d-%d-%d%s): at the returned %s %.5f h the Sun is at %.4f deg, h0 = %.4f"
+                       % (call, name, y, mo, d, ", RA wraps through 0h" if wrap else "", nm, res[idx], ele(), h0), [y, mo, d, name], "print(%s)" % call)
+        if not (0.0 <= res[1] <= 24.0):
+            cx.add("trts-sun-transit-range", "%s (Sun, %s %d-%d-%d): transit %.4f h outside 0..24" % (call, name, y, mo, d, res[1]), [y, mo, d, name], "print(%s)" % call)
+
+
+def eot_crossings(cx, years):
+    """day-to-day change across the four yearly zero crossings with a sign-aware reconstruction: the sign of the days with
+    |E| < 1 min (minutes field 0) is taken from the nearest days on either side whose minutes field is non-zero, switching at
+    the day of smallest |E| (that one day may take either sign)."""
+    Sun, Epoch = cx.Sun, cx.Epoch
+    for y in years:
+        for (mo, d) in ((4, 15), (6, 13), (9, 1), (12, 25)):
+            j0 = Epoch(y, mo, d).jde()
+            js = [j0 + q for q in range(-14, 15)]
+            try:
+                ms = [Sun.equation_of_time(Epoch(j)) for j in js]
+            except Exception as ex:
+                cx.add("eot-raises", "equation_of_time near %d-%d-%d raises %r" % (y, mo, d, ex), [y, mo, d], "print(Sun.equation_of_time(Epoch(%r)))" % j0); continue
+            cx.n += len(js); cx.nontriv += len(js)
+            ab = [eot_abs(x) for x in ms]
+            first = next((i for i, x in enumerate(ms) if x[0] != 0), None)
+            last = next((i for i in range(len(ms) - 1, -1, -1) if ms[i][0] != 0), None)
+            if first is None or ms[first][0] * ms[last][0] > 0:
+                sgn = [1 if (first is None or ms[first][0] > 0) else -1] * len(ms)     # no crossing in the window
+                free = None
+            else:
+                zone = [i for i in range(len(ms)) if ms[i][0] == 0]
+                free = min(zone, key=lambda i: ab[i]) if zone else None
+                s1 = 1 if ms[first][0] > 0 else -1
+                sgn = []
+                for i in range(len(ms)):
+                    if ms[i][0] != 0: sgn.append(1 if ms[i][0] > 0 else -1)
+                    elif free is not None and i < free: sgn.append(s1)
+                    elif free is not None and i > free: sgn.append(-s1)
+                    else: sgn.append(0)
+            for i in range(1, len(ms)):
+                c1 = [sgn[i - 1] * ab[i - 1]] if sgn[i - 1] else [ab[i - 1], -ab[i - 1]]
+                c2 = [sgn[i] * ab[i]] if sgn[i] else [ab[i], -ab[i]]
+                ch = min(abs(a - b) for a in c1 for b in c2) * 60.0
+                if not ch < 45.0:
+                    cx.add("eot-daily-change-at-zero-crossing",
+                           "equation_of_time changes by %.1f s from Epoch(%r) %r to Epoch(%r) %r near the zero crossing of %d-%d-%d (< 45 s demanded)"
+                           % (ch, js[i - 1], ms[i - 1], js[i], ms[i], y, mo, d), [js[i - 1], js[i]],
+                           "print(Sun.equation_of_time(Epoch(%r)), Sun.equation_of_time(Epoch(%r)))" % (js[i - 1], js[i]))
+
+
 def search(rng, tier, deep):
     cx = Ctx()
     full = deep or tier == "thorough"
@@ -380,19 +475,25 @@ def search(rng, tier, deep):
         years = list(range(-1000, 3001))
         eyears = sorted(set(list(range(-2000, 4001, 100)) + [1800, 1999, 2000, 2024, 2200]))
         nrs, ntr = 6000, 30000
+        nsun, cyears = 400, list(range(-2000, 4001, 50))
     else:
         years = sorted(set([-1000, -999, -1, 0, 1, 998, 999, 1000, 1001, 1582, 2000, 2999, 3000] + [rng.randint(-1000, 3000) for _ in range(240)]))
         eyears = sorted(set([-2000, -1000, 0, 1000, 1800, 2000, 2200, 3000, 4000] + [rng.randint(-2000, 4000) for _ in range(4)]))
         nrs, ntr = 500, 3000
+        nsun, cyears = 40, sorted(set([-2000, 0, 1600, 1987, 2000, 2024, 4000] + [rng.randint(-2000, 4000) for _ in range(8)]))
     seasons(cx, years)
     eot(cx, eyears)
     rise_set(cx, rng, nrs)
     general(cx, rng, ntr)
+    sun_general(cx, rng, nsun)
+    eot_crossings(cx, cyears)
     stats = {"evaluations": cx.n, "distinct_nontrivial": cx.nontriv,
              "rule": "seasons: %s years x 4 (longitude at the returned instant vs 90k within 1e-5 deg, order, 88-95 d, 365.2-365.3 d, ValueError outside); "
                      "equation of time: every day of %d sample years -2000..4000 (|E| bound, daily change < 45 s with the most favourable sign when |E| < 1 min); "
                      "rise_set: %d random/boundary places and dates 1900-2100 (altitude from apparent_geocentric_position + apparent_sidereal_time + equatorial2horizontal); "
-                     "times_rise_transit_set: %d synthetic linearly moving bodies (<= 1.5 deg/day), grazing = |cos H0| > 0.96 or diurnal altitude rate < 60 deg/day somewhere in the three days"
+                     "times_rise_transit_set: %d synthetic linearly moving bodies (<= 1.5 deg/day), grazing = |cos H0| > 0.96 or diurnal altitude rate < 60 deg/day somewhere in the three days; "
+                     "times_rise_transit_set with the library's own Sun on 18-23 March (RA through 0h), 4 places incl. Boston 2024-03-20/21 and Munich 1987-03-21/22; "
+                     "equation of time +-14 days around its four zero crossings with sign-aware reconstruction"
                      % ("ALL -1000..3000" if full else "%d sampled/boundary" % len(years), len(eyears), nrs, ntr),
              "samples": [{"input": [2000, "spring"], "checked": "apparent longitude at the returned JDE within 1e-5 deg of 0"}],
              "findings_by_key": cx.seen,
